@@ -169,6 +169,7 @@ def run(ctx):
         ctx.check("C18.interp", fs, splice[0], ok3, "text outside the placeholder is not preserved",
                   site="FuncS.execute: s[0:idx1] + value + s[idx2+1:]")
     placeholder_state(ctx, model)
+    ckl_text_building(ctx, model)
 
 
 def placeholder_state(ctx, model):
@@ -234,6 +235,45 @@ def placeholder_state(ctx, model):
                       expr=f"placeholder state {v}", site=f"FuncS.execute: `{v}` reset for every placeholder before use")
     if n < 5:
         ctx.broken("FuncS.execute", f"only {n} reads of per-placeholder state found")
+
+
+def ckl_text_building(ctx, model):
+    """Library code: program text (a template for s(), an argument of eval / parse) is never assembled by putting a
+    VALUE between hand-written quote characters (`"'" + x + "'"`): a quote or backslash inside the value ends the
+    literal early, and braces in it are interpolated again."""
+    from .. import cklsrc
+    n = 0
+    for fn, (src, _) in sorted(model.ckl_modules.items()):
+        try:
+            toks = cklsrc.tokenize(src)
+            funcs = cklsrc.functions(toks)
+        except cklsrc.CklTokenError as e:
+            ctx.broken(f"modules/{fn}", str(e))
+        for f in funcs:
+            body = cklsrc.own_body(f)
+            evaluates = any(t.kind == "id" and t.text in ("s", "eval", "parse", "sprintf") and i + 1 < len(body)
+                            and body[i + 1].is_p("(") for i, t in enumerate(body))
+            if not evaluates:
+                continue
+            n += 1
+            bad = None
+            for i in range(len(body) - 4):
+                if body[i].kind == "str" and body[i].text in ("'", '"', "\\'", '\\"') and body[i + 1].is_p("+") \
+                        and body[i + 2].kind == "id":
+                    j = i + 3
+                    if j < len(body) and body[j].is_p("["):
+                        j = cklsrc._skip_group(body, j)
+                    if j + 1 < len(body) and body[j].is_p("+") and body[j + 1].kind == "str" \
+                            and body[j + 1].text == body[i].text:
+                        bad = body[i]
+            ctx.ob("C18.interp", f"modules/{fn}: {f.qual}: builds no quoted program text from values", bad is None)
+            if bad is not None:
+                ctx.fail("C18.interp", f"modules/{fn}:{f.qual}", None,
+                         f"{f.qual} puts a value between hand-written quotes to build text that is evaluated later: a "
+                         f"quote or backslash in the value breaks the literal, `{{n}}` in it is interpolated again",
+                         expr=f"{f.qual}: quoted value in evaluated text", file=f"src/ckl/modules/{fn}", line=bad.line)
+    if n < 1:
+        ctx.broken("modules/*.ckl", "no library function that evaluates text found (sprintf)")
 
 
 def ckl_first_element(ctx, model):
